@@ -352,6 +352,13 @@ class OutProtocolBase(ProtocolMixin):
         elif cls_attrs.format is not None:
             return cls_attrs.format % value
 
+        # repr() gives 'inf', '-inf' and 'nan'; Xml Schema spells them
+        # differently. float() reads both spellings.
+        if value != value:
+            return 'NaN'
+        if value in (float('inf'), float('-inf')):
+            return 'INF' if value > 0 else '-INF'
+
         return repr(value)
 
     def integer_to_bytes(self, cls, value, **_):
